@@ -13,19 +13,34 @@ ids = sys.argv[1:] or sorted(os.path.basename(os.path.dirname(m)) for m in glob.
 for sid in ids:
     d = "/verif/seeded/" + sid
     meta = json.load(open(d + "/meta.json"))
-    rc, o = sh("git -C /repo status --porcelain")
-    assert o.strip() == "", "/repo not clean: " + o
-    rc, o = sh("git -C /repo apply %s/patch.diff" % d)
-    assert rc == 0, o
+    scratch = None
+    repo_env = ""
+    if os.environ.get("VERIF_SEED_SCRATCH") == "1":
+        # evaluate against a scratch worktree of /repo's HEAD so that /repo stays untouched
+        scratch = "/tmp/wt/eval_%s" % sid
+        sh("git -C /repo worktree remove --force %s" % scratch)
+        rc, o = sh("git -C /repo worktree add -q --detach %s HEAD" % scratch)
+        assert rc == 0, o
+        rc, o = sh("git -C %s apply %s/patch.diff" % (scratch, d))
+        assert rc == 0, o
+        repo_env = "VERIF_REPO=%s " % scratch
+    else:
+        rc, o = sh("git -C /repo status --porcelain")
+        assert o.strip() == "", "/repo not clean: " + o
+        rc, o = sh("git -C /repo apply %s/patch.diff" % d)
+        assert rc == 0, o
     try:
         c = meta["property"]
         t0 = time.time()
-        rc, o = sh("cd /verif && ./check %s quick" % c)
+        rc, o = sh("cd /verif && %s./check %s quick" % (repo_env, c))
         lines = [l for l in o.splitlines() if l.startswith(("VIOLATION", "KNOWN-FINDING", "ENGINE-ERROR", "OK "))]
         meta["checks_quick"] = {c: {"exit": rc, "lines": lines[:6], "wall_s": round(time.time() - t0)}}
         meta["detected_by"] = [c] if rc == 1 else []
         meta["rechecked_at_verif_commit"] = subprocess.run("git -C /verif rev-parse --short HEAD", shell=True, stdout=subprocess.PIPE, text=True).stdout.strip()
         print(sid, c, rc, lines[:2], flush=True)
     finally:
-        sh("git -C /repo checkout -- .")
+        if scratch:
+            sh("git -C /repo worktree remove --force %s" % scratch)
+        else:
+            sh("git -C /repo checkout -- .")
     json.dump(meta, open(d + "/meta.json", "w"), indent=1)
